@@ -375,6 +375,128 @@ def classify(cases, tier):
     return accepted, rejected, dict(singles=len(singles), rejected=len(rejected))
 
 
+# ----------------------------------------------------------------------------------------
+# from_value and class template argument deduction
+
+FV_ARCHETYPES = [
+    # built-in
+    'signed char', 'unsigned short', 'int', 'unsigned long', 'vh::I',
+    # scaled_integer, radix 2
+    'cnl::scaled_integer<>', 'cnl::scaled_integer<int, cnl::power<-8>>', 'cnl::scaled_integer<long, cnl::power<12>>',
+    'cnl::scaled_integer<cnl::elastic_integer<10>, cnl::power<-4>>', 'decltype(0.625_cnl2)', 'cnl::static_number<10, -2>',
+    # scaled_integer, other radixes
+    'cnl::scaled_integer<int, cnl::power<0, 8>>', 'cnl::scaled_integer<int, cnl::power<-2, 10>>',
+    'cnl::scaled_integer<long, cnl::power<3, 10>>', 'cnl::scaled_integer<int, cnl::power<-1, 16>>',
+    'cnl::scaled_integer<unsigned char, cnl::power<1, 16>>', 'cnl::scaled_integer<int, cnl::power<2, 3>>',
+    'cnl::scaled_integer<vh::I, cnl::power<-5, 10>>', 'decltype(3.141_cnl)', 'decltype(0x7f0_cnl)', 'decltype(017.4_cnl)',
+    'cnl::scaled_integer<cnl::overflow_integer<int, cnl::saturated_overflow_tag>, cnl::power<-3, 10>>',
+    # elastic_integer, wide_integer
+    'cnl::elastic_integer<10>', 'cnl::elastic_integer<40, unsigned char>', 'cnl::elastic_integer<63, long>',
+    'cnl::wide_integer<40>', 'cnl::wide_integer<16, unsigned>',
+    # overflow / rounding wrappers and nests
+    'cnl::overflow_integer<int, cnl::saturated_overflow_tag>', 'cnl::overflow_integer<unsigned char, cnl::native_overflow_tag>',
+    'cnl::overflow_integer<long, cnl::trapping_overflow_tag>', 'cnl::rounding_integer<long, cnl::neg_inf_rounding_tag>',
+    'cnl::rounding_integer<int, cnl::nearest_rounding_tag>',
+    'cnl::overflow_integer<cnl::elastic_integer<10>, cnl::saturated_overflow_tag>',
+    'cnl::rounding_integer<cnl::overflow_integer<int, cnl::_impl::throwing_overflow_tag>, cnl::tie_to_pos_inf_rounding_tag>',
+    'cnl::static_integer<10>',
+]
+
+
+def cxx_const(v):
+    """a C++ constant expression of value v: int, long or __int128 by magnitude"""
+    if -(1 << 31) < v < (1 << 31):
+        return str(v)
+    if -(1 << 63) < v < (1 << 63):
+        return 'INT64_C(%d)' % v
+    if v == -(1 << 63):  # as __int128: negating the long is not a constant expression (digits_v<constant<>>)
+        return '(-(vh::I(1) << 63))'
+    a = abs(v)
+    e = '((vh::I(UINT64_C(%d)) << 64) | vh::I(UINT64_C(%d)))' % (a >> 64, a & ((1 << 64) - 1))
+    return '(-%s)' % e if v < 0 else e
+
+
+def fv_constants(tier, seed):
+    """(few trailing zero bits, many trailing zero bits): boundary-rich, fixed corners plus seeded patterns"""
+    rnd = random.Random(seed * 2654435761 + 1512)
+    few = [0, 1, -1, 2, -2, 3, 6, 7, 8, -8, 10, 12, 48, 100, 255, 1000, 65535, 0x7FFFFFFF, -0x100000001, 0x5555555555555555,
+           0x2AAAAAAAAAAAAAAA, (5 << 100) + 4, -((1 << 126) + 2)]
+    many = [128, 1024, 65536, 0x55550000, 1 << 32, 0x7FFFFFFF00000000, -(1 << 62), -(1 << 63), 5 << 100, 1 << 126]
+    for _ in range(4 if tier == 'quick' else 16):
+        w = rnd.randrange(1, 120)
+        pat = (rnd.choice([int('5' * 32, 16), int('a' * 32, 16), rnd.getrandbits(128), (1 << w) - 1]) & ((1 << w) - 1)) | 1
+        tz = rnd.randrange(0, 4)
+        v = (pat << tz) * rnd.choice([1, -1])
+        if abs(v) < (1 << 127):
+            few.append(v)
+    for _ in range(2 if tier == 'quick' else 8):
+        w = rnd.randrange(1, 60)
+        pat = (rnd.getrandbits(64) & ((1 << w) - 1)) | 1
+        v = (pat << rnd.randrange(4, 126 - w)) * rnd.choice([1, -1])
+        many.append(v)
+
+    def uniq(l):
+        out = []
+        for v in l:
+            if v not in out:
+                out.append(v)
+        return out
+    return uniq(few), uniq(many)
+
+
+def deduction_tus(tier, seed):
+    chk = _check()
+    res = []
+    wide = any(f.get('id') == 'C15.ctad_default_arguments' and f.get('status') == 'open' for f in chk.known_findings())
+    env = {'C15_CTAD_WIDE': '1'} if wide else {}
+    using = 'using namespace cnl::literals;\n'
+    # class template argument deduction: the guides of fraction
+    body = HEAD + using + 'int main(){ install(); Rng rng(seed_from_env());\n'
+    for t in ('signed char', 'unsigned char', 'short', 'unsigned short', 'int', 'unsigned', 'long', 'unsigned long', 'vh::I', 'vh::U'):
+        body += '  c15::ctad_fraction_int<%s>(rng);\n' % t
+    for n, d in (('signed char', 'long'), ('unsigned', 'short'), ('long', 'unsigned char'), ('int', 'int'), ('vh::I', 'unsigned short')):
+        body += '  c15::ctad_fraction2<%s, %s>(rng);\n' % (n, d)
+    for t in ('float', 'double', 'long double'):
+        body += '  c15::ctad_fraction_float<%s>(rng);\n' % t
+    body += '}\n'
+    res.append(dict(name='C15_ctad_fraction', src=body, compiler='g++', compile_timeout=1200))
+    # the alias templates (no guide: default arguments)
+    rnd = random.Random(seed * 97 + 1513)
+    cs = [0, 1, -1, 8, -6, 1000, 65535, (1 << 31) - 1, -(1 << 31) + 1, -(1 << 31), rnd.randrange(-(1 << 31), 1 << 31), rnd.randrange(-(1 << 20), 1 << 20)]
+    if wide:
+        cs += [1 << 31, -(1 << 31) - 1, 1 << 40, -(5 << 70), (1 << 63) - 1]
+    body = HEAD + using + 'int main(){ install(); Rng rng(seed_from_env());\n'
+    for t in ('signed char', 'unsigned char', 'short', 'unsigned short', 'int', 'unsigned', 'long', 'unsigned long'):
+        body += '  c15::ctad_alias<%s>(rng);\n' % t
+    for v in cs:
+        # typed long (or wider), as a _c literal is: the initializer always has more digits than int
+        body += '  c15::ctad_alias_c<%s>();\n' % ('INT64_C(%d)' % v if abs(v) < (1 << 63) else cxx_const(v))
+    body += '}\n'
+    res.append(dict(name='C15_ctad_alias', src=body, compiler='g++', env=env, compile_timeout=1200))
+    # from_value: every archetype with constants (few / many trailing zero bits in separate programs) and run-time values
+    few, many = fv_constants(tier, seed)
+    arch = list(FV_ARCHETYPES)
+    rnd.shuffle(arch)
+    nfew, nmany = (4, 2) if tier == 'quick' else (6, 3)
+    for i in range(nfew):
+        body = HEAD + using + 'int main(){ install(); Rng rng(seed_from_env() + %d);\n' % i
+        for a in arch[i::nfew]:
+            body += '  c15::fv_cs<%s, %s>();\n' % (a, ', '.join(cxx_const(v) for v in few))
+            body += '  c15::fv_vs<%s>(rng);\n' % a
+        body += '}\n'
+        res.append(dict(name='C15_fv_%d' % i, src=body, compiler='g++', compile_timeout=1200))
+    for i in range(nmany):
+        body = HEAD + using + 'int main(){ install();\n'
+        for a in arch[i::nmany]:
+            body += '  c15::fv_cs<%s, %s>();\n' % (a, ', '.join(cxx_const(v) for v in many))
+        body += '}\n'
+        res.append(dict(name='C15_fvz_%d' % i, src=body, compiler='g++', compile_timeout=1200))
+    if tier == 'thorough':
+        res.append(dict(res[0], name='C15_ctad_fraction_clang', compiler='clang++'))
+        res.append(dict(res[2], name='C15_fv_0_clang', compiler='clang++'))
+    return res
+
+
 def tus(tier, seed):
     chk = _check()
     cdir = os.path.join(chk.CACHE, 'c15')
@@ -438,6 +560,7 @@ def tus(tier, seed):
         body += '  c15_mk_values<%s>(rng);\n' % t
     body += '}\n'
     res.append(dict(name='C15_mkv', src=body, compiler='g++', compile_timeout=1200))
+    res += deduction_tus(tier, seed)
     return res
 
 
@@ -446,9 +569,16 @@ RULE = ("run time: tokens of every length 1..80 (thorough 130) per base x leadin
         "parse<T> for seven result types; the width estimate for every decimal length 1..1200; compile time: generated literals of all four kinds "
         "(fixed corner lengths 19, 38/39, 125, 202, 308, X0.Y tokens and 0'… octal tokens always present) and make_* on boundary constants "
         "(every run: 25+ negative powers of two through all five helpers); run-time tokens ending in the radix point with either sign and "
-        "0'… octal tokens of every chunk-relevant length in every run; non-trivial = well-formed "
+        "0'… octal tokens of every chunk-relevant length in every run; from_value<Archetype> (helper function and public trait) for 35 "
+        "archetypes (built-in, scaled_integer of radix 2/3/8/10/16 over built-in, elastic and wrapped reps, elastic/wide/overflow/rounding "
+        "wrappers, nests, the types of _cnl literals) x constants with few and with many trailing zero bits (int, long and __int128 typed) "
+        "and x the boundary lattice of the eight built-in types; class template argument deduction: every guide of fraction (ten integer "
+        "types, two-argument form, float/double/long double values whose numerator or denominator needs up to the full promised width, "
+        "e.g. 2^63, 2^64-1, 1e19L, 1e-19L, 2^-63) and the six alias templates without a guide (values and constants that fit int; wider "
+        "ones only while C15.ctad_default_arguments is listed as open); non-trivial = well-formed "
         "token whose value the result type can hold (distinct lines)")
 TRUSTED = ["g++ -fsyntax-only outcome of one-literal TUs as the observable REJECTED (classified by harness/props/C15.py)"]
-ASSUMPTIONS = ["literal tokens carry no sign (the language never passes one to a literal operator)",
+ASSUMPTIONS = ["fraction{floating}: inputs in one of property C17's defect classes of make_fraction are not judged by the C15 oracle (correspondence only)",
+               "literal tokens carry no sign (the language never passes one to a literal operator)",
                "_cnl/_cnl2 are constrained only when the significand times the output radix fits intmax_t (one guard digit)",
                "used_digits / countr_zero themselves are property C18; here they are the functions `Nat.log2 + 1` and the 2-adic valuation"]
